@@ -371,6 +371,9 @@ func (d *driver) next(st *State) M {
 			mf := M{"set": false, "denom": "", "amt": 0}
 			if d.rng.Intn(2) == 0 {
 				mf = M{"set": true, "denom": denom, "amt": d.rng.Intn(12)}
+				if d.rng.Intn(8) == 0 { // a max fee in another denomination than the bid
+					mf["denom"] = []string{"uatom", "uregen", "ufoo"}[d.rng.Intn(3)]
+				}
 			}
 			os = append(os, M{"id": o["id"], "qty": 0, "qty_raw": raw, "bid_denom": denom, "bid_amt": bid, "dar": d.rng.Intn(2) == 0, "maxfee": mf})
 		}
